@@ -220,13 +220,14 @@ def count_heads(notes, head, orphaned_head="raise", orphaned_tail="raise"):
 
 
 def splitting_notes(groups):
-    """plain notes lying strictly between the head and the tail of a note-with-tail on their column"""
+    """notes (plain ones, and the heads of other notes-with-tail) lying strictly between the head and the tail of a
+    note-with-tail on their column"""
     holds = [it for g in groups for it in g if it[0] == "W"]
     out = []
     for g in groups:
         for it in g:
-            if it[0] == "N" and any(h[2] == it[2] and h[4] == it[4] and h[1] < it[1] < h[6] for h in holds):
-                out.append(it[1:])
+            if any(h is not it and h[2] == it[2] and h[4] == it[4] and h[1] < it[1] < h[6] for h in holds):
+                out.append(tuple(it[1:6]))
     return out
 
 
